@@ -129,3 +129,21 @@ def dispersion(a):
         if abs(mp.mpf(g) - ref) > 1e-6 * abs(ref):
             msgs.append('group refractivity %r vs phase + sigma d/dsigma = %s at %r' % (g, mp.nstr(ref, 12), v))
     return bool(msgs), '; '.join(msgs[:2]) if msgs else 'dispersion relation holds'
+
+
+def bearing_ieee(a):
+    """a double theta = +-m * 2^(E-52) as the atan2 result: find plane coordinates whose atan2 is that double and check the bearing
+    of the real joins / rect2polar"""
+    import math
+    from fractions import Fraction as F
+    from geodepy.convert import rect2polar
+    from geodepy.survey import joins
+    th = float(F(int(a['m'])) * F(2) ** (int(a['E']) - 52)) * (-1 if a.get('neg') else 1)
+    msgs = []
+    for y in (1.0, 1e7, 6378137.0):
+        x = math.tan(th) * y if abs(th) < 1.5 else math.sin(th) * y
+        yy = y if abs(th) < 1.5 else math.cos(th) * y
+        for fn, got in (('rect2polar(%r, %r)' % (x, yy), rect2polar(x, yy)[1]), ('joins(0, 0, %r, %r)' % (x, yy), joins(0.0, 0.0, x, yy)[1])):
+            if not (0 <= got < 360):
+                msgs.append('%s: bearing %r is not in [0, 360)' % (fn, got))
+    return bool(msgs), '; '.join(msgs[:2]) or 'bearing in range for theta=%r' % th
